@@ -112,18 +112,25 @@ func hC13PassThrough() {
 		}
 	}
 	// arbitrary body bytes (not necessarily valid in the protocol), arbitrary declared length, extra headers
-	n := verifChoose("bodyLen", 4)
+	maxBody, hvLen, pathLen := 3, 2, 1
+	if verifTier() == 1 {
+		maxBody, hvLen, pathLen = 5, 3, 2
+	}
+	n := verifChoose("bodyLen", maxBody+1)
 	body.data = nondetBytes("body", n)
 	req.ContentLength = verifNondetInt64("contentLength")
 	verifAssume(req.ContentLength >= -1)
-	hv := string(nondetBytes("hv", 2))
+	hv := string(nondetBytes("hv", hvLen))
 	req.Header["X-Custom"] = []string{hv, "second"}
 	req.Header.Set("Accept-Encoding", "br")
 	if req.ContentLength >= 0 {
 		req.Header.Set("Content-Length", "7")
 	}
 	if unmatchedMode == 1 {
-		req.URL.Path = "/nope/" + string(nondetBytes("p", 1))
+		req.URL.Path = "/nope/" + string(nondetBytes("p", pathLen))
+		if verifTier() == 1 {
+			req.URL.RawQuery = "q=" + string(nondetBytes("query", 1))
+		}
 	}
 	wantHdr := req.Header.Clone()
 	wantURL := *req.URL
@@ -190,13 +197,13 @@ func hC18Dispatch() {
 	case 1: // unclassifiable: two content-types
 		req.Header["Content-Type"] = []string{"application/grpc", "application/json"}
 	case 2: // unknown method
-		req.URL.Path = "/pkg.Svc/" + string(nondetBytes("m", 2))
+		req.URL.Path = "/pkg.Svc/" + string(nondetBytes("m", 2+verifTier()))
 		verifAssume(req.URL.Path != pipePath)
 		if withUnknown {
 			expectReject = false
 		}
 	case 3: // wrong HTTP method
-		req.Method = string(nondetBytes("method", 3))
+		req.Method = string(nondetBytes("method", 3+verifTier()))
 		verifAssume(req.Method != "POST")
 	case 4: // gRPC over HTTP/1
 		if cfg.client != cfGRPC {
@@ -205,9 +212,9 @@ func hC18Dispatch() {
 		req.Proto, req.ProtoMajor = "HTTP/1.1", 1
 	case 5: // unsupported codec
 		ct := req.Header.Get("Content-Type")
-		req.Header.Set("Content-Type", ct[:len(ct)-len("proto")]+"x"+string(nondetBytes("codec", 1)))
+		req.Header.Set("Content-Type", ct[:len(ct)-len("proto")]+"x"+string(nondetBytes("codec", 1+verifTier())))
 	case 6: // unsupported compression
-		name := "z" + string(nondetBytes("comp", 1))
+		name := "z" + string(nondetBytes("comp", 1+verifTier()))
 		switch cfg.client {
 		case cfGRPC, cfGRPCWeb:
 			req.Header.Set("Grpc-Encoding", name)
@@ -222,7 +229,7 @@ func hC18Dispatch() {
 		}
 		req.Header.Set("Content-Encoding", "gzip")
 	case 8: // malformed timeout
-		bad := string(nondetBytes("timeout", 2))
+		bad := string(nondetBytes("timeout", 2+verifTier()))
 		if cfg.client == cfGRPC || cfg.client == cfGRPCWeb {
 			verifAssume(refGrpcClearlyMalformed([]byte(bad)))
 			req.Header.Set("Grpc-Timeout", bad)
